@@ -64,6 +64,14 @@ def fastF (bfr hfr : List Nat) : Except Err (List Nat) := do
   if !bf.isEmpty then return 5 :: sortNDesc ((sortNDesc bfr).take 3 ++ bf)
   return []
 
+/-! ## Reading the two parts off a deal -/
+
+def ranksOf (l : List Card) : List Nat := l.map (·.rank)
+/-- the ranks of the cards of suit `s`, in the order of the list -/
+def ranksIn (s : Nat) (l : List Card) : List Nat := (l.filter (·.suit == s)).map (·.rank)
+/-- the suit holding three or more board cards (the evaluator's `flush_suit`), with the board's ranks in it -/
+def flushSuit (board : List Card) : Option (Nat × List Nat) := (suitPartition board).find? fun e => e.2.length ≥ 3
+
 /-! ## The finite domains -/
 
 /-- ascending lists of `k` values in `[lo, 14]`, repetitions allowed -/
